@@ -196,7 +196,8 @@ def check_exception(exc_got, want, runstate=None):
     if not flag and runstate['IGNORE_EXCEPTION_DETAIL']:
         exc_got1 = _strip_exception_details(exc_got)
         exc_want1 = _strip_exception_details(exc_want)
-        flag = check_output(exc_got1, exc_want1, runstate)
+        # an empty stripped want (e.g. "Val...") must not match every exception
+        flag = bool(exc_want1) and check_output(exc_got1, exc_want1, runstate)
         if flag:
             exc_got = exc_got1
             exc_want = exc_want1
